@@ -12,7 +12,7 @@ ASSUME = [
     "via-circuit attacher is not removed by the user (documented as an error in set_attacher)",
     "a BUILT circuit used by a pending via-circuit connection stays BUILT until the connection's stream has appeared; a connection "
     "may be started on a circuit that is still building (it waits; if the circuit fails the connection fails)",
-    "SimTor acknowledges every command at once, except that the SETCONF installing the via-circuit attacher may be answered in a later step (ConfAck); attacher error reports are observed at TorState._attacher_error (wrapped on the instance)",
+    "SimTor acknowledges every command at once, except that the SETCONF installing an attacher (the user's or the via-circuit one) may be answered in a later step (ConfAck), with everything issued meanwhile waiting behind it; attacher error reports are observed at TorState._attacher_error (wrapped on the instance)",
     "the SOCKS endpoint of a via-circuit connection is a fake whose local address the script supplies",
     "PriorityAttacher: up to three sub-attachers with priorities 0..2, each added at most once at a time, answering immediately with "
     "no preference / a circuit / do-not-attach; the order in which they are consulted is observed by the sub-attachers themselves",
@@ -72,11 +72,16 @@ def rand_script(rng, n):
                 continue
             if who == "none" and att_ == "V":
                 continue
+            late = False
             if who == "none":
                 att_ = "none"
             elif who in ("A", "P") and att_ == "none":
+                if hold[0]:
+                    continue
                 att_ = who
-            out.append(dict(a="SetAttacher", who=who))
+                late = rng.random() < 0.4
+                hold[0] = late
+            out.append(dict(a="SetAttacher", who=who, late=late))
         elif r < 0.75:
             free = [s for s in (1, 2, 3) if s not in seen]
             if not free:
@@ -121,7 +126,7 @@ def rand_script(rng, n):
         elif r < 0.92:
             ks = [k for k, v in via.items() if v["st"] == "idle"]
             cb = [c for c in cs if cs[c] in ("BUILT", "BUILDING")]
-            if not ks or not cb or att_ in ("A", "P"):
+            if not ks or not cb or att_ in ("A", "P") or (att_ == "none" and hold[0]):
                 continue
             k, c = rng.choice(ks), rng.choice(cb)
             late = att_ == "none" and rng.random() < 0.6
@@ -167,6 +172,12 @@ def directed():
                     dict(a="NewStream", s=1, kind="normal", p=4001, ans="none", mode="imm"), dict(a="StreamFailed", s=1),
                     dict(a="LateClosed", s=1), dict(a="NewStream", s=2, kind="normal", p=4002, ans="none", mode="imm"),
                     dict(a="StreamFailed", s=2), dict(a="LateClosed", s=2)])
+    # the attacher is removed again before Tor has answered its installation
+    out.append([dict(a="SetAttacher", who="A", late=True), dict(a="SetAttacher", who="none"), dict(a="ConfAck"),
+                dict(a="NewStream", s=1, kind="normal", p=4001, ans="none", mode="imm"),
+                dict(a="SetAttacher", who="A", late=False), dict(a="NewStream", s=2, kind="normal", p=4002, ans="none", mode="imm")])
+    out.append([dict(a="SetAttacher", who="A", late=True), dict(a="NewStream", s=1, kind="normal", p=4001, ans="none", mode="imm"),
+                dict(a="SetAttacher", who="none"), dict(a="ConfAck")])
     # priority composition: every order of addition of three sub-attachers with distinct / equal priorities
     import itertools
     for order in itertools.permutations([("x", 0), ("y", 1), ("z", 2)]):
